@@ -1801,7 +1801,22 @@ func (h *vC09H) scenario(kind string) {
 			victim = a1 // revoking the sibling form must withhold the 257 entry just the same
 		}
 		h.revoke(victim)
-		h.run(h.honest(), h.pickFaults())
+		// the accepting run under every combination of the two writes (the sibling must be withheld
+		// whether or not the tombstone landed), or under the generic fault mix
+		fl := vC09Faults{}
+		if h.idx >= len(vC09Kinds) {
+			switch r.Intn(5) {
+			case 1:
+				fl.twrite = true
+			case 2:
+				fl.swrite = true
+			case 3:
+				fl.twrite, fl.swrite = true, true
+			case 4:
+				fl = h.pickFaults()
+			}
+		}
+		h.run(h.honest(), fl)
 		h.run(h.honest(), vC09Faults{})
 		h.restart(cfg)
 		h.run(h.honest(), vC09Faults{})
@@ -2143,6 +2158,43 @@ func TestVerifC09AutoTA(t *testing.T) {
 				t.Fatalf("corpus entry %s names a key role this pool does not have", fn)
 			}
 			finish(h, w, dir, "corpus-"+ent.Name, ent.Mode, ent.Fkey, -1-ci)
+		}
+	}
+	// dnssec.KeyTag on real keys in several flags forms (plain, revoked, SEP only; keys whose revoked
+	// form carries; colliding pairs): the model's keytag_of (translated octet-sum loop) and the RFC 4034
+	// reference in Run.v must both give the observed tag
+	if replayIdx < 0 {
+		var mats []int
+		mats = append(mats, pool.carry...)
+		for _, pr := range pool.collide {
+			mats = append(mats, pr[0], pr[1])
+		}
+		for _, pr := range pool.revcol {
+			mats = append(mats, pr[0], pr[1])
+		}
+		tr := rand.New(rand.NewSource(seed*977 + 5))
+		for i := 0; i < 12 && i < len(pool.normal); i++ {
+			mats = append(mats, pool.normal[tr.Intn(len(pool.normal))])
+		}
+		if len(mats) > 40 {
+			mats = mats[:40]
+		}
+		for _, m := range mats {
+			for _, fl := range []uint16{257, 385, 1, 256} {
+				rr := pool.rr(vC09Sym{m, fl})
+				raw, err := base64.StdEncoding.DecodeString(rr.PublicKey)
+				if err != nil {
+					t.Fatalf("pool key does not decode: %v", err)
+				}
+				octs := make([]string, len(raw))
+				for i, b := range raw {
+					octs[i] = strconv.Itoa(int(b))
+				}
+				tag := dnssec.KeyTag(rr)
+				emit(map[string]any{"k": "keytag", "nontrivial": true,
+					"coq":  fmt.Sprintf("CTag %d %d %d [%s] %d", rr.Flags, rr.Protocol, rr.Algorithm, strings.Join(octs, ";"), tag),
+					"desc": map[string]any{"index": -1000 - m, "kind": "keytag", "flags": rr.Flags, "key": rr.PublicKey, "tag": tag}})
+			}
 		}
 	}
 	for idx := 0; idx < n; idx++ {
